@@ -307,7 +307,28 @@ def finish(pid, tier, seed, cfg, reports, extra, t0):
         for ob in fails:
             print(f"        {ob['result']:<7} {ob['name']}  {ob.get('model', '')}  carved={ob.get('carved')} replay={ob.get('replay')}")
     bounded = []
+    frame_rows = []
     for ex in extra:
+        if ex.get('kind') == 'frame':
+            for o in ex['obligations']:
+                n_obl += 1
+                if o['status'] in ('discharged', 'exempt'):
+                    n_dis += 1
+                    backends['frame-checker'] = backends.get('frame-checker', 0) + 1
+                    if o['status'] == 'exempt':
+                        frame_rows.append(dict(obligation=o['name'], status='exempt (assumption)', why=o['detail']))
+                    elif len(samples) < 4:
+                        samples.append(dict(obligation=o['name'], result='discharged', backend='frame-checker', detail=o['detail'][:160]))
+                elif o['status'] == 'violated':
+                    os.makedirs(os.path.join(ROOT, 'replays', pid), exist_ok=True)
+                    path = os.path.join('replays', pid, _sanitize(o['name']) + '.json')
+                    json.dump(dict(property=pid, obligation=o['name'], line=o.get('line'), solver_output=o['detail'], confirmed=None,
+                                   replay_error='frame obligation: decided by the provenance checker, no input to replay'), open(os.path.join(ROOT, path), 'w'), indent=1)
+                    violations.append((o['name'], path, 'no-failing-input-found'))
+                    print(f"[FAIL] frame {o['name']} line {o.get('line')}: {o['detail'][:200]}")
+                else:
+                    undecided.append(f"{o['name']}: {o['detail'][:160]}")
+            continue
         if ex.get('kind') == 'bounded':
             bounded.append(ex)
             if ex.get('violations'):
@@ -333,7 +354,7 @@ def finish(pid, tier, seed, cfg, reports, extra, t0):
                             trusted_base=TRUSTED_BASE + list(cfg.get('trusted', [])),
                             functions_under_contract=functions, backends=backends, solver_seconds=round(solver_s, 3),
                             samples=samples or [dict(note='no non-trivial obligation sampled')],
-                            known_findings=known_lines, bounded=bounded,
+                            known_findings=known_lines, bounded=bounded, frame_exemptions=frame_rows,
                             undecided=undecided, checker_errors=errors,
                             explanation=cfg.get('explanation', '')),
               assumptions=ASSUMPTIONS + list(cfg.get('assumptions', [])),
